@@ -229,45 +229,40 @@ func (u *Unit) intrinsic(fr *Frame, st *State, fn *ssa.Function, args []Val, whe
 		u.fact(fmt.Sprintf("(assert (> %s 1000000))", r.S))
 		u.assume(TTrue, Eq(App(SInt, "ErrMsg", r), u.termOf(args[0])))
 		return &Scalar{T: r, Typ: sig.Results().At(0).Type()}
+	case "(*strings.Builder).WriteString", "(*strings.Builder).WriteByte", "(*strings.Builder).WriteRune", "(*strings.Builder).Write":
+		// the builder's text only grows: what it held before and what is written now are both part of it afterwards
+		if key, ok := builderKey(args[0]); ok {
+			nw := u.fresh(SInt, "sbtext")
+			u.strIncludes(st.pc, nw, u.builderText(st, key))
+			if name == "(*strings.Builder).WriteString" {
+				u.strIncludes(st.pc, nw, u.termOf(args[1]))
+			}
+			st.ghost["sb:"+key] = u.define(Ite(st.pc, nw, u.builderText(st, key)), "sb")
+		}
+		return u.freshResults(sig, "sbw", st.pc)
+	case "(*strings.Builder).String":
+		if key, ok := builderKey(args[0]); ok {
+			return &Scalar{T: u.builderText(st, key), Typ: types.Typ[types.String]}
+		}
+		return u.freshResults(sig, "sbs", st.pc)
+	case "fmt.Fprintf":
+		// into a strings.Builder: as Sprintf, appended to the builder's text
+		if w, ok := args[0].(*Scalar); ok {
+			if key, ok := builderKey(w.Aux); ok {
+				nw := u.fresh(SInt, "sbtext")
+				u.strIncludes(st.pc, nw, u.builderText(st, key))
+				u.sprintfIncludes(st, nw, args[1:])
+				st.ghost["sb:"+key] = u.define(Ite(st.pc, nw, u.builderText(st, key)), "sb")
+				return u.freshResults(sig, "fpr", st.pc)
+			}
+		}
+		u.unmodelled["fmt.Fprintf(non-builder)"]++
+		return u.freshResults(sig, "fpr", st.pc)
 	case "fmt.Sprintf":
 		// the result includes the text of every string and error argument (whatever the verb): enough to follow
 		// the catalogue patterns through the library's own error messages
 		r := u.fresh(SInt, "sprintf")
-		// the literal text between the verbs of a constant format is part of the result
-		if fs, ok := args[0].(*Scalar); ok {
-			if lit, ok := u.eng.strOf(fs.T); ok {
-				for _, chunk := range formatChunks(lit) {
-					u.strIncludes(st.pc, r, u.strLit(chunk))
-				}
-			}
-		}
-		if len(args) > 1 {
-			if sl, ok := args[1].(*SliceV); ok && sl.Cell != nil {
-				for i := 0; i < sl.N; i++ {
-					av := u.loadCell(st, sl.Cell, []string{fmt.Sprint(i)}, types.NewInterfaceType(nil, nil))
-					as, ok := av.(*Scalar)
-					if !ok {
-						continue
-					}
-					switch inner := as.Aux.(type) {
-					case *Scalar:
-						if inner.Typ != nil && isString(inner.Typ) {
-							u.strIncludes(st.pc, r, inner.T)
-							continue
-						}
-						if inner.Typ != nil && typeString(inner.Typ) == "error" {
-							u.strIncludes(st.pc, r, App(SInt, "ErrMsg", inner.T))
-							continue
-						}
-					case nil:
-						// an interface value passed on as it is: an error, most likely
-						if as.Typ != nil && typeString(as.Typ) == "error" {
-							u.strIncludes(st.pc, r, App(SInt, "ErrMsg", as.T))
-						}
-					}
-				}
-			}
-		}
+		u.sprintfIncludes(st, r, args)
 		return &Scalar{T: r, Typ: types.Typ[types.String]}
 	case "errors.Is":
 		a, b := u.termOf(args[0]), u.termOf(args[1])
@@ -478,7 +473,7 @@ func (u *Unit) unlockOp(fr *Frame, st *State, pv Val, mode int64, where string) 
 			env := u.newEnv(fr, st, u.entry)
 			env.this = this
 			env.callee = true
-		env.callee = true
+			env.callee = true
 			g := u.evalBool(env, li.Clause.Expr)
 			u.oblige("lockinv("+lk+")."+li.Clause.Label, propList(li.Clause.Prop), "", st.pc, g, where, li.Clause.Src)
 		}
@@ -534,7 +529,7 @@ func (u *Unit) atomicLoad(fr *Frame, st *State, pv Val, rt types.Type, where str
 				env := u.newEnv(fr, st, u.entry)
 				env.vars["v"] = &Scalar{T: val, Typ: rt}
 				env.this = &Scalar{T: p.Base, Typ: types.NewPointer(p.RTyp)}
-			env.callee = true
+				env.callee = true
 				env.callee = true
 				u.assume(st.pc, u.evalBool(env, fd.Inv.Expr))
 			}
@@ -822,9 +817,72 @@ func (u *Unit) intrinsicInvoke(fr *Frame, st *State, full string, recv Val, args
 	return nil, false
 }
 
-
 // strIncludes: the string whole contains the string part, as far as the catalogue patterns can tell: every pattern
 // found in part (lower-cased or not) is found in whole.
+// sprintfIncludes: r is the result of formatting args (format first): it includes the literal text between the
+// verbs of a constant format and the text of every string and error argument (whatever the verb).
+func (u *Unit) sprintfIncludes(st *State, r Term, args []Val) {
+	// the literal text between the verbs of a constant format is part of the result
+	if fs, ok := args[0].(*Scalar); ok {
+		if lit, ok := u.eng.strOf(fs.T); ok {
+			for _, chunk := range formatChunks(lit) {
+				u.strIncludes(st.pc, r, u.strLit(chunk))
+			}
+		}
+	}
+	if len(args) > 1 {
+		if sl, ok := args[1].(*SliceV); ok && sl.Cell != nil {
+			for i := 0; i < sl.N; i++ {
+				av := u.loadCell(st, sl.Cell, []string{fmt.Sprint(i)}, types.NewInterfaceType(nil, nil))
+				as, ok := av.(*Scalar)
+				if !ok {
+					continue
+				}
+				switch inner := as.Aux.(type) {
+				case *Scalar:
+					if inner.Typ != nil && isString(inner.Typ) {
+						u.strIncludes(st.pc, r, inner.T)
+						continue
+					}
+					if inner.Typ != nil && typeString(inner.Typ) == "error" {
+						u.strIncludes(st.pc, r, App(SInt, "ErrMsg", inner.T))
+						continue
+					}
+				case nil:
+					// an interface value passed on as it is: an error, most likely
+					if as.Typ != nil && typeString(as.Typ) == "error" {
+						u.strIncludes(st.pc, r, App(SInt, "ErrMsg", as.T))
+					}
+				}
+			}
+		}
+	}
+}
+
+// builderKey identifies a strings.Builder by the local (or object) it lives in.
+func builderKey(v Val) (string, bool) {
+	switch p := v.(type) {
+	case *PtrV:
+		if p.Cell != nil {
+			return fmt.Sprintf("c%d.%s", p.Cell.ID, strings.Join(p.Path, ".")), true
+		}
+		return p.Base.S + "." + strings.Join(p.Path, "."), true
+	case *Scalar:
+		if p.Aux != nil {
+			return builderKey(p.Aux)
+		}
+		return p.T.S, p.T.S != ""
+	}
+	return "", false
+}
+
+func (u *Unit) builderText(st *State, key string) Term {
+	if t, ok := st.ghost["sb:"+key]; ok {
+		return t
+	}
+	return u.strLit("")
+}
+
 // formatChunks: the literal pieces of a fmt format string (the text between verbs; %% is dropped with its chunk
 // boundary, which only loses text).
 func formatChunks(f string) []string {
